@@ -31,3 +31,9 @@ CHECKS["C09"] = {
          "(inductive step) and for 2-call sequences; each path is cross-checked on real in-memory SQLite. MockStorage: real class under solver-enumerated 3-4 call "
          "sequences with re-open. On-disk durability and concurrent callers are outside this technique and not claimed.",
  "technique": "bounded symbolic execution of SqliteStorage over a z3-encoded relation with run-time SQL interpretation; z3 validity queries against a map model; per-path translation validation on real SQLite"}
+CHECKS["C16"] = {
+ "text": "(a) Bounded symbolic verification (M1, linear integer arithmetic) of the filesystem provider's hash kernel: file length is a z3 integer, reads are index "
+         "intervals, blake2b an injective recording stub; hash(info) == hash_data(same bytes) for every content is the validity of 'both interval sequences cover [0,L)' "
+         "for every L <= 12293. (b) Exhaustive bounded exploration (M2) of MockProvider against a reference tree: error classes, info/exists/listdir/download agreement, id "
+         "stability, hash == hash_data, events for every mutation, identity check on connect. FileSystemProvider directory operations on a real directory are outside the technique.",
+ "technique": "bounded symbolic execution of the hash kernel over z3 integer intervals (QF_LIA validity); solver-enumerated MockProvider call sequences against a reference tree; replay on real files"}
